@@ -2414,19 +2414,21 @@ L95:
 		    dmin__ = dnew;
 		}
 		d__[i__] = dnew;
-		++qlen;
-		q[qlen] = k;
 	    }
 L115:
 	    ;
 	}
-/* Initialize heap Q and Q2 with rows held in Q(1:QLEN) */
-	q0 = qlen;
-	qlen = 0;
-	i__2 = q0;
-	for (kk = 1; kk <= i__2; ++kk) {
-	    k = q[kk];
+/* Initialize heap Q and Q2 with the matched rows of column JORD that */
+/* were given a distance above (D(I) < RINF).  The column is scanned */
+/* again instead of keeping these rows in Q(1:QLEN): Q2 is filled */
+/* downwards from Q(N) and overwrote list entries not yet read when */
+/* several rows of a nearly full column tied for the minimum. */
+	i__2 = ip[jord + 1] - 1;
+	for (k = ip[jord]; k <= i__2; ++k) {
 	    i__ = irn[k];
+	    if (iperm[i__] == 0 || d__[i__] == rinf) {
+		goto L120;
+	    }
 	    if (csp <= d__[i__]) {
 		d__[i__] = rinf;
 		goto L120;
